@@ -140,10 +140,11 @@ Inductive accepts_from (x : sctx) : pstate -> bytes -> Prop :=
 Definition accepts (x : sctx) (s : bytes) : Prop :=
   exists s', s = x00 :: s' /\ accepts_from x PAuth s'.
 
-(* ---------------------------------------------------------------- known deviations of the pinned code *)
-Inductive klass := KLfLineStart | KBareData | KMalformed.
+(* ---------------------------------------------------------------- known deviation of the code *)
+Inductive klass := KMalformed.
 
-(* a line the D-Bus grammar knows in full: known word, known mechanism name, hex arguments, OK with a GUID *)
+(* a line the D-Bus grammar knows in full: known word, hex arguments, OK with a GUID (any word may name a mechanism:
+   one the server does not know is one it does not support) *)
 Definition hex_ok (t : bytes) : bool := match bytes_of_hex t with Some _ => true | None => false end.
 Definition guid_ok (t : bytes) : bool := Nat.eqb (length t) 32 && forallb is_hexdigit t.
 Definition well_formed (body : bytes) : bool :=
@@ -152,19 +153,13 @@ Definition well_formed (body : bytes) : bool :=
   | w :: args =>
       if lbeq w (B "AUTH") then
         match args with
-        | [] => true
-        | m :: rest => (lbeq m (B "EXTERNAL") || lbeq m (B "ANONYMOUS")) && match rest with [] => true | h :: _ => hex_ok h end
+        | _ :: h :: _ => hex_ok h
+        | _ => true
         end
       else if lbeq w (B "DATA") then match args with [] => true | h :: _ => hex_ok h end
       else if lbeq w (B "OK") then match args with [] => false | g :: _ => guid_ok g end
       else lbeq w (B "BEGIN") || lbeq w (B "CANCEL") || lbeq w (B "ERROR") || lbeq w (B "NEGOTIATE_UNIX_FD")
            || lbeq w (B "REJECTED") || lbeq w (B "AGREE_UNIX_FD")
-  end.
-
-Definition bare_data_unknown_creds (x : sctx) (st : pstate) (c : scmd) : bool :=
-  match st, c, x_mech x, x_uid x with
-  | PData, CData IdNone, External, None => true
-  | _, _, _, _ => false
   end.
 
 (* ---------------------------------------------------------------- the executable specification *)
@@ -184,18 +179,6 @@ Fixpoint cut_line (s : bytes) : option (bytes * bytes) :=
 
 Definition first_some (a b : option klass) : option klass := match a with Some _ => a | None => b end.
 
-(* is there an LF where a line starts, in what is still to come? ([at_start]: we are at the start of a line) *)
-Fixpoint empty_line_ahead (s : bytes) (at_start : bool) : bool :=
-  match s with
-  | [] => false
-  | c :: r => if beq c x0a then at_start || empty_line_ahead r true else empty_line_ahead r false
-  end.
-
-(* where the property stops prescribing the conversation, only "no panic" remains; a server that carries on may
-   still meet a bare LF later, which is the first known class *)
-Definition unclear_exit (k : option klass) (rest : bytes) : verdict * option klass :=
-  (VUnclear, first_some k (if empty_line_ahead rest true then Some KLfLineStart else None)).
-
 Fixpoint spec_loop (fuel : nat) (x : sctx) (st : pstate) (fd : bool) (rs : list reply) (s : bytes)
   : verdict * option klass :=
   match fuel with
@@ -205,18 +188,17 @@ Fixpoint spec_loop (fuel : nat) (x : sctx) (st : pstate) (fd : bool) (rs : list 
       | None => (VFail rs, None)                                  (* the stream ends inside a line *)
       | Some (seg, rest) =>
           match rev seg with
-          | [] => (VUnclear, Some KLfLineStart)                   (* a bare LF where a line should start *)
+          | [] => (VUnclear, None)                                (* LF without CR (a bare LF) *)
           | last :: rbody =>
               let body := rev rbody in
-              if negb (beq last x0d) then unclear_exit None rest   (* LF without CR *)
-              else if negb (is_ascii body) then unclear_exit None rest
+              if negb (beq last x0d) then (VUnclear, None)         (* LF without CR *)
+              else if negb (is_ascii body) then (VUnclear, None)
               else
                 let c := classify body in
-                let k := if negb (well_formed body) then Some KMalformed
-                         else if bare_data_unknown_creds x st c then Some KBareData else None in
+                let k := if negb (well_formed body) then Some KMalformed else None in
                 match sstep x st c with
                 | Finish => (VDone rs fd rest, k)
-                | Unclear => unclear_exit k rest
+                | Unclear => (VUnclear, k)
                 | Next st' r a =>
                     let '(v, k') := spec_loop f x st' (fd || a) (rs ++ [r]) rest in
                     (v, first_some k k')
@@ -230,7 +212,6 @@ Definition spec_server (x : sctx) (s : bytes) : verdict * option klass :=
   | [] => (VFail [], None)
   | c :: s' =>
       if beq c x00 then spec_loop (S (length s')) x PAuth false [] s'
-      else if beq c x0a then (VFail [], Some KLfLineStart)
       else (VFail [], None)                                       (* the first byte must be NUL *)
   end.
 
